@@ -57,3 +57,42 @@ Theorem c13_analysis_succeeds_any_provider : forall noise e s,
   exists g, analyze e false (r_stmt noise s) = Ok g.
 Proof. intros noise e s Hn He Hs Hq. destruct (analysis_succeeds_any_provider noise e s Hn He Hs Hq) as [g [H _]]. exists g. exact H. Qed.
 Print Assumptions c13_analysis_succeeds_any_provider.
+
+(** * Column level with a provider (Ast/SpecMeta.v: the specification with a catalog; Tree/LemmaBMeta.v, 1 900 lines).
+    On the single-SELECT fragment of Lemma B, for an arbitrary catalog [base], any trivia, any number of items and tables:
+    (d) when the catalog knows none of the statement's tables the whole pipeline reports what it reports without metadata
+        (and that is the specification);
+    (c) an INSERT without column list into a table whose columns the catalog knows reports what the same INSERT with the
+        catalog's columns as explicit list reports (the catalog names the positions);
+    the unguarded column-level statement with metadata is refuted (16 counterexample classes in Tree/LemmaBMeta.v, module
+    CxMd; the ones that are defects of the implementation are K-C13-1/3/4 and K-C11-1, replayed on every run).
+    NOT proved: clause (a) star expansion against the specification ([c13_star_expands_statement], tested on 7 680 instances),
+    the specification side of clause (b) (the model side is [c13_unqualified_attribution]). *)
+From SV Require Import Ast.SpecMeta Tree.LemmaB Tree.LemmaBProofs Tree.LemmaBMeta.
+
+Theorem c13_unknown_tables_same_answer : forall noise e base s,
+  noise_ok noise = true -> env_ok_md e = true -> stmt_ok s = true -> sshape s = true -> colshape s = true ->
+  sel_tables_syntactic s = true -> md_unknown (e_cfg e) base s = true ->
+  script_pairs e false base [r_stmt noise s] = script_pairs (LemmaAMeta.strip e) false [] [r_stmt noise s] /\
+  script_pairs e false base [r_stmt noise s] = spec_pairs_md (e_cfg e) base s.
+Proof.
+  intros noise e base s Hn He Hok Hss Hc Hsh Hu. split.
+  - exact (c13_unknown_tables_same noise e base s Hn He Hok Hss Hc Hsh Hu).
+  - exact (lemma_B_md_unknown noise e base s Hn He Hok Hss Hc Hsh Hu).
+Qed.
+Print Assumptions c13_unknown_tables_same_answer.
+
+Theorem c13_known_target_names_positions : forall noise e base t tc items from cj,
+  let s1 := SInsert t None (QSelect items from cj None) in
+  let s2 := SInsert t (Some tc) (QSelect items from cj None) in
+  noise_ok noise = true -> env_ok_md e = true -> p_truthy (e_provider e) = true ->
+  stmt_ok s2 = true -> sshape s2 = true -> colshape s2 = true -> sel_tables_syntactic s2 = true ->
+  items_plain_b items = true ->
+  known base (tref_str (e_cfg e) t) = Some tc ->
+  script_pairs e false base [r_stmt noise s1] = script_pairs e false (remove_key (tref_str (e_cfg e) t) base) [r_stmt noise s2].
+Proof. exact c13_insert_positions. Qed.
+Print Assumptions c13_known_target_names_positions.
+
+Theorem c13_columns_with_metadata_unguarded_refuted : ~ lemma_B_md_unguarded.
+Proof. exact lemma_B_md_unguarded_refuted. Qed.
+Print Assumptions c13_columns_with_metadata_unguarded_refuted.
